@@ -57,7 +57,14 @@ pub(crate) fn did_str(d: u32) -> String {
   if kind == 'I' {
     format!("did:iota:0x{}", format!("{:02x}", (d * 0x11) as u8).repeat(32))
   } else if kind == 'J' {
-    format!("did:ex:i{}", d)
+    // DIDs 50.. are of another method with the same method-specific ids: did:alt:i<n-50>
+    if d >= 50 {
+      format!("did:alt:i{}", d - 50)
+    } else {
+      format!("did:ex:i{}", d)
+    }
+  } else if d >= 50 {
+    format!("did:alt:d{}", d - 50)
   } else {
     format!("did:ex:d{}", d)
   }
@@ -83,7 +90,7 @@ pub(crate) fn id_of(u: &DIDUrl) -> Id {
   let mid = u.did().method_id();
   let did = match mid.strip_prefix("0x") {
     Some(h) if h.len() >= 2 => u32::from_str_radix(&h[..2], 16).map(|b| b / 0x11).unwrap_or(999),
-    _ => mid.trim_start_matches(|c| c == 'd' || c == 'i').parse().unwrap_or(999),
+    _ => mid.trim_start_matches(|c| c == 'd' || c == 'i').parse::<u32>().map(|n| if u.did().method() == "alt" { n + 50 } else { n }).unwrap_or(999),
   };
   let pq = match (u.path().filter(|p| !p.is_empty()), u.query().filter(|q| !q.is_empty())) {
     (None, None) => 0,
@@ -351,7 +358,8 @@ fn scopes() -> Vec<Option<MethodScope>> {
 fn battery(d: &CoreDocument, nd: u32, np: u32, nf: u32, fail: &mut Option<String>) -> String {
   let mut meth: Vec<String> = vec![];
   let mut svc: Vec<String> = vec![];
-  for did in 0..nd {
+  // the DIDs 0..nd and DID 50 (another method, same method-specific id as DID 0)
+  for did in (0..nd).chain([50]) {
     for pq in 0..np {
       for f in 1..=nf {
         let i = Id { did, pq, frag: Some(f) };
@@ -537,7 +545,7 @@ pub(crate) fn spec_line(id: u32, vm: &[(Id, u32)], rels: &[Vec<Result<(Id, u32),
 
 fn rid(r: &mut Rng) -> Id {
   Id {
-    did: if r.chance(1, 5) { 1 } else { 0 },
+    did: if r.chance(1, 12) { 50 } else if r.chance(1, 5) { 1 } else { 0 },
     pq: if r.chance(1, 4) { 1 + r.below(2) as u32 } else { 0 },
     frag: Some(1 + r.below(3) as u32),
   }
@@ -634,6 +642,8 @@ pub fn gen(thorough: bool, seed: u64, out: &mut impl Write) {
     Id { did: 0, pq: 0, frag: Some(2) },
     Id { did: 0, pq: 1, frag: Some(1) },
     Id { did: 1, pq: 0, frag: Some(1) },
+    // another DID method with the same method-specific id and fragment
+    Id { did: 50, pq: 0, frag: Some(1) },
   ];
   let mut ops: Vec<String> = vec![];
   for i in ids {
